@@ -11,26 +11,26 @@ COMMON_NOTE = ("Trusted: Lean 4.33 kernel; axioms propext, Classical.choice, Quo
                "(theorems are over exact reals / naturals; discrete claims carry a robustness margin where the code's quantiser has one), signed zeros, NaN/infinity except where the C04 instance models them.")
 
 P = {
- 'C01': ('RGB -> XYZ -> RGB identity', 'Kernel-checked theorems over the exact-real reading of the generated model: profile dispatch, |R_k*M_k - I| bounds on the generated matrix constants, exact curve inverses, and the per-level rounding margin; quantified over all colours and the three profiles.', 'theorems on generated model + matrix/curve lemmas; tie = MIR translation + Float correspondence + exhaustive cube oracle'),
- 'C02': ('XYZ-derived spaces invert', 'Theorems: exact or bounded inverse identities per space on the real model (polar spaces exactly via Complex.arg, xyY exactly, curves on their branches, matrix products bounded on the generated constants); Hunter Lab and Rec.2100 are recorded findings with characterisation theorems. Requantisation clause is tied by the exhaustive oracle and labelled partial where not proved.', 'inverse identities as theorems; known findings characterised; oracle sweeps the cube x 14 spaces'),
- 'C03': ('device-model round trips', 'Theorems on the real model: hex exact (all bytes), CMYK exact with rounding margin, YUV <= 1, YCbCr <= 4 by interval reasoning; HSL/HSV/HWB bounds per sector (partial where stated).', 'algebra + interval arithmetic theorems; hex by decide over bytes'),
- 'C04': ('totality', 'Theorems: purity of generated functions (no MIR assert and no panicking callee => total by construction), Res-valued functions proved never to panic (ANSI decode by kernel decision over 256 codes, ANSI encode, generators), hex parser total over all strings, from_vec total on every length; finiteness guards (division/power side conditions) proved on the real model for the guarded branches.', 'totality theorems in the Res monad + guard lemmas; oracle sweeps all conversion paths for NaN/inf/panic'),
- 'C05': ('colorimetric definition of RGB<->XYZ', 'Theorems: generated matrices match the matrices derived (in exact rational arithmetic) from primaries and white point within 5e-8, curves are definitionaly the IEC 61966-2-1 / gamma 563/256 curves, reverse direction is matrix, curve and one round-to-nearest quantiser.', 'norm_num on generated constants + definitional unfolding'),
- 'C06': ('CIE definitions', 'Theorems: xyY and Hunter Lab forward equal the CIE formulae exactly, CIELAB/CIELUV within explicit bounds from the constant mismatches, reverse identities; Hunter reverse is a recorded finding with an exact characterisation theorem (returns -Z) and a refutation witness.', 'exact identities + bounded constant mismatch'),
- 'C07': ('OkLab / OkLch', 'Theorems: the code equals M2*cbrt(M1*s^2.2) with the published matrices including signs (characterisation of the recorded linearisation finding), OkLch exactly polar, inverse tables within bound.', 'definitional theorems with signed matrix tables'),
- 'C08': ('encoded RGB spaces', 'Theorems: each conversion is definitionally matrix then standard curve (sRGB, Adobe 563/256, BT.709, BT.2020 12-bit, ST 2084 inverse), curve inverses exact on their branches, PQ forward characterised exactly (recorded finding).', 'definitional theorems against hand-written standards'),
- 'C09': ('hexcone definitions', 'Theorems: hue = round-half-away of the hexcone angle wrapped into [0,360) and a whole number; S/L/V/W/B equal the standard definitions exactly; reverse conversions equal the sector formulae under one quantiser per model.', 'case analysis on max channel / sector over the reals'),
- 'C10': ('CMYK, YUV, YCbCr, grayscale formulas', 'Theorems: every forward and reverse conversion equals its cited formula exactly over the reals, with a single quantiser per conversion.', 'definitional unfolding + ring/norm_num on generated literals'),
- 'C11': ('neutrals stay neutral', 'Theorems for all 256 greys: exact achromaticity in the rational spaces (weights sum to 1 / 0 as decimal identities), bounded chroma in XYZ-derived spaces from the row sums of the generated matrices.', 'algebra on generated constants'),
- 'C12': ('brightening never darkens', 'Theorems: weak monotonicity of luma/value/lightness/grayscale/-K by positivity of weights and monotone quantisers; strict monotonicity of X,Y,Z from positive matrix entries and strictly increasing decode curves.', 'monotonicity lemmas'),
- 'C13': ('outputs in range', 'Theorems: range of every listed component from channel bounds 0..255; ANSI code ranges by computation over levels.', 'interval reasoning'),
- 'C14': ('cylindrical = polar of parent', 'Theorems for arbitrary XYZ / arbitrary polar values: shared lightness, chroma = sqrt(a^2+b^2), hue = arg in degrees with the code\'s wrap, exact reconstruction of the parent via Complex.arg identities.', 'Complex.arg / trig identities'),
- 'C15': ('hex text', 'Theorems over ALL strings (unbounded lists of code points) about the hand model of hex.rs: canonical format, parse(format c) = c, acceptance of 3/6 digits either case with optional #, success implies the leading digits spell the result, non-hex colour positions are rejected.', 'structural proofs on List Nat; model tied to hex.rs by correspondence on shaped/random strings'),
- 'C16': ('ANSI-256 decode', 'Kernel decision (decide +kernel) over all 256 codes on the generated decoder including its checked u8 arithmetic and the hex parser it goes through: result = xterm palette.', 'decide +kernel over Fin 256 on the generated definition'),
- 'C17': ('RGB -> ANSI', 'Theorems: the generated encoders equal the documented formulas (round-half-away as natural-number arithmetic), no checked-arithmetic panic; corollaries (>= 16, neutral greys, monotone ramp, decode bounds 69/11) by kernel computation over the 256 levels lifted to all triples.', 'formula equality + per-level decide lifted'),
- 'C18': ('tint and shade', 'Theorems on the fuel-indexed loop model: invalid real factors rejected with zero iterations; closed form of the generated loop for 0 < f <= 1 (entry i = Q(c moved i*f)), length floor(1/f)+1, first entry, monotonicity, last entry, fuel bound.', 'induction over the generated loop'),
- 'C19': ('helpers and vector marshalling', 'Theorems for arbitrary dictionaries (all type pairs at once): helpers = explicit two-step composition with None = D65; per type from_vec (as_vec x) = x, documented order, defaults on short vectors, scale = x100.', 'unfolding of generated generic functions'),
- 'C20': ('JS marshalling', 'Theorems about the model generated from the MIR of the real derive-macro expansions (js feature): read(write x) = x for every deriving struct, keys = field names, missing field => InvalidArg.', 'association-list object model of N-API'),
+ 'C01': ('RGB -> XYZ -> RGB identity', 'Theorem Props.C01.roundtrip: for all three profiles and every 8-bit colour as_rgb (from_rgb c k) k = c on the exact-real reading of the generated model, in robust form (any perturbation <= 0.09 of each pre-quantisation value), from |R_k*M_k - I| <= 2e-7 on the generated constants, exact curve inverses and a per-level stability lemma.', 'theorems on generated model + matrix/curve lemmas'),
+ 'C02': ('XYZ-derived spaces invert', 'Theorems per space for every 8-bit colour: XYZ -> S -> XYZ within explicit bounds far below 5e-4 (sRGB 4.6e-7, Rec.709 4.4e-7, Rec.2020 1.4e-6, xyY exact, Adobe 3e-4 under both profiles, Lab/LCh(ab) 8.6e-8, Luv/LCh(uv)/HCL 5e-7, OkLab/OkLch 1.25e-4) and exact re-quantisation (requant_stable: any XYZ within 1.7e-5 of a colour re-quantises to it; channel-wise arguments for Adobe and OkLab). Hunter Lab and Rec.2100 are recorded findings with characterisation theorems.', 'inverse identities / bounds as theorems; known findings characterised'),
+ 'C03': ('device-model round trips', 'Theorems: hex exact (via C15), CMYK exact with rounding margin 1/4, YUV <= 1, YCbCr <= 4 (sharp per-channel ranges), HSL <= 2, HSV <= 3, HWB <= 3 for all colours (black through the NaN path on the partial-real instance).', 'algebra + interval arithmetic + 1-Lipschitz trapezoid-wave argument for the hexcone spaces'),
+ 'C04': ('totality', 'Theorems on the partial-real instance PR = Option R (none = NaN/inf): every conversion path of the property yields finite values (forward_finite, roundtrip_finite for 14 spaces, curves finite for every real input), each as a bridging lemma f_PR (lift p) = lift (f_R p); no Res-valued function of the generated model can return panic on its domain (ANSI encode/decode, generators for every factor including NaN and every fuel); hex parser total over all strings; from_vec total.', 'definedness instance + bridging lemmas; panic-freedom in the Res monad'),
+ 'C05': ('colorimetric definition of RGB<->XYZ', 'Theorems: the generated matrices are within 5e-8 of P*diag(P^-1 W) computed from primaries and white point with Mathlib\'s matrix inverse (Bradford for D50), the curves are definitionally IEC 61966-2-1 / gamma 563/256, forward XYZ within 1e-6 of the spec, reverse = inverse matrix, curve, one round-to-nearest quantiser; white and black.', 'norm_num on generated constants + definitional unfolding'),
+ 'C06': ('CIE definitions', 'Theorems: xyY and Hunter Lab forward exact, CIELAB/CIELUV forward within 1e-3 of the exact CIE formulae (eps = 216/24389, kappa = 24389/27) for every 8-bit colour, reverse within 1e-5 on [0,1.1]^3 with Y > 0, black; Hunter reverse characterised exactly (returns -Z: recorded finding) and refuted at a witness.', 'exact identities + bounded constant mismatch'),
+ 'C07': ('OkLab / OkLch', 'Theorems: the code equals M2*cbrt(M1*max(s,0)^2.2) with Ottosson\'s matrices including signs (characterisation of the recorded linearisation finding, refuted against the sRGB-curve reading at a witness), OkLch exactly polar, reverse = published inverse, round trip within 5.8e-7 in linear light.', 'definitional theorems with signed matrix tables + bounded inverse'),
+ 'C08': ('encoded RGB spaces', 'Theorems: each conversion is definitionally matrix then standard curve (sRGB, Adobe 563/256, BT.709, BT.2020 12-bit, ST 2084 inverse with exact rational constants), curve inverses exact outside explicitly bounded slivers, forward closeness for 8-bit colours (sRGB 5e-6, Rec.709 1.3e-6, Adobe 2e-3, Rec.2020 2e-13 away from the OETF jump; unconditional 2.81e-6 is labelled partial), PQ forward characterised exactly (recorded finding).', 'definitional theorems against hand-written standards + Lipschitz bounds'),
+ 'C09': ('hexcone definitions', 'Theorems: hue = round-half-away of the hexcone angle wrapped into [0,360), a whole number; S/L/V/W/B equal the standard definitions exactly; reverse conversions equal the sector formulae under one quantiser per model (round for HSL, truncate for HSV/HWB) including the grey shortcuts.', 'case analysis on max channel / sector over the reals'),
+ 'C10': ('CMYK, YUV, YCbCr, grayscale formulas', 'Theorems: every forward and reverse conversion equals its cited formula exactly over the reals, with a single quantiser per conversion, saturating at 0 and 255.', 'definitional unfolding + ring/norm_num on generated literals'),
+ 'C11': ('neutrals stay neutral', 'Theorems for every grey: exact achromaticity in the rational spaces; |a|,|b|,|u|,|v|, chroma bounds in Lab/Luv/LCh/HCL/Hunter (< 1e-3) and OkLab/OkLch (< 1e-6), xyY chromaticity within 1e-4, equal encoded channels (2e-3 relative) in sRGB/Adobe/Rec.709/Rec.2020/Rec.2100, white and black lightness.', 'algebra on generated constants (row sums) + cube-root perturbation bounds'),
+ 'C12': ('brightening never darkens', 'Theorems: weak monotonicity of luma/value/lightness/grayscale/-K; strict monotonicity of X,Y,Z for all profiles and of the CIELAB, CIELUV (quantitative across the branch jump), Hunter and OkLab lightness for every one-step channel increase.', 'monotonicity lemmas; quantitative step bound dY >= 2e-5'),
+ 'C13': ('outputs in range', 'Theorems: range of every listed component for every 8-bit colour (hexcone percentages and hue, CMYK, YUV, YCbCr, grayscale, XYZ between black and white, lightness ranges, chroma >= 0, hue ranges, encoded channels, ANSI code ranges).', 'interval reasoning'),
+ 'C14': ('cylindrical = polar of parent', 'Theorems for arbitrary XYZ / arbitrary polar values: shared lightness, chroma = sqrt(a^2+b^2), hue = arg in degrees with the code\'s wrap (radians for OkLch), HWB from HSV, exact reconstruction of the Cartesian parent for any L, C >= 0, h.', 'Complex.arg / trig identities'),
+ 'C15': ('hex text', 'Theorems over ALL strings (unbounded lists of code points, multi-byte included) about the hand model of hex.rs: parse succeeds with c iff the text spells c (parse_iff), canonical lower-case format, parse(format c) = c, acceptance of 3/6 digits either case with optional #, rejection of non-hex colour positions.', 'structural proofs on List Nat; model tied to hex.rs by correspondence on shaped/random strings'),
+ 'C16': ('ANSI-256 decode', 'Kernel decision (decide +kernel) over all 256 codes on the generated decoder including its checked u8 arithmetic and the hex parser it goes through: result = xterm palette, no panic, no error.', 'decide +kernel over Fin 256 on the generated definition'),
+ 'C17': ('RGB -> ANSI', 'Theorems: the generated encoders equal the documented formulas (round-half-away as natural-number arithmetic) and never panic; never a system colour, neutral monotone grey ramp, decode within 69 (11 for greys) by kernel computation over the 256 levels lifted to all triples; ANSI-16 code set.', 'formula equality + per-level decide lifted'),
+ 'C18': ('tint and shade', 'Theorems on the fuel-indexed model of the generated loop: invalid real factors rejected with zero iterations (NaN on the partial-real instance, C04); closed form for 0 < f <= 1 (entry i = Q(c moved i*f)), length floor(1/f)+1, first entry, monotonicity, last entry black/white, termination within 258 iterations for f >= 1/256.', 'induction over the generated loop'),
+ 'C19': ('helpers and vector marshalling', 'Theorems for arbitrary dictionaries (all type pairs at once): helpers = explicit two-step composition with None = D65; per type from_vec (as_vec x) = x, documented order, defaults on short vectors, last-element behaviour on long ones, scale = x100.', 'unfolding of generated generic functions'),
+ 'C20': ('JS marshalling', 'Theorems about the model generated from the MIR of the crate built with --features js, i.e. from the real derive-macro expansions: for each of the 25 deriving structs (template re-instantiated on every run) and for Shade/Tint: keys written = field names, read(write x) = x, the empty object and an object lacking any one field are rejected with InvalidArg. N-API objects are modelled as association lists (assumed).', 'association-list object model; per-struct template; induction for the list loops'),
 }
 
 def has_theorems(pid):
